@@ -14,7 +14,7 @@ pub fn info() -> PropInfo {
     PropInfo {
         id: "C15",
         level: "exploration",
-        rule: "bounded-exhaustive: every line of <=5 tokens over {space,tab,-,//,TXTPP#,TXTPP,#,include,after,run,temp,tag,write,inclde,x,é} through detect_from, and every (directive of <=4 tokens, distinct by (ws,prefix,type)) x (next line of <=5 tokens (quick: 4) over {space,tab,-,//,TXTPP#,run,x,é,'# '}) through add_line, each compared with an independent recogniser written from the statement; plus sampled pairs pushed through whole-file builds and compared with the reference model. A case is non-trivial when the line contains TXTPP# (detection), or the pair is accepted by either side, or the directive is multi-line capable and the next line starts with its leading whitespace (a near miss); distinct = distinct line / (ws,prefix,type,next) strings.",
+        rule: "bounded-exhaustive: every line of <=5 tokens over {space,tab,-,//,TXTPP#,TXTPP,#,include,after,run,temp,tag,write,inclde,x,é} through detect_from, and every (directive of <=4 tokens, distinct by (ws,prefix,type)) x (next line of <=5 tokens (quick: 4) over {space,tab,-,//,TXTPP#,run,x,é,'# '}) through add_line, each compared with an independent recogniser written from the statement; plus sampled pairs pushed through whole-file builds and compared with the reference model, including two-pass files (a generated dependency is included first) whose continuation text looks like an include/after of the file itself or of an unrequested source. A case is non-trivial when the line contains TXTPP# (detection), or the pair is accepted by either side, or the directive is multi-line capable and the next line starts with its leading whitespace (a near miss); distinct = distinct line / (ws,prefix,type,next) strings.",
         assumptions: &[
             "reference recogniser (harness/src/model.rs detect/continues) is a faithful reading of the statement",
             "blanks are space and tab only (DESIGN §4.3 D2)",
@@ -198,6 +198,30 @@ fn check_e2e(ctx: &mut Ctx, line: &str, next: &str) {
     }
 }
 
+/// whole-file run where the file first includes a generated dependency (so that it is processed in
+/// two passes) and then carries a multi-line directive whose continuation text looks like an
+/// include / after of the file itself or of a source that nothing requires
+fn check_e2e_two_pass(ctx: &mut Ctx, head: &str, cont_arg: &str) {
+    let d = match model::detect(head) {
+        Some(d) if model::multi(&d.name) && !d.pre.is_empty() && matches!(d.name.as_str(), "" | "write") => d,
+        _ => return,
+    };
+    let mut files = Files::new();
+    let src = format!("-TXTPP#include dep.txt\n{head}\n{}{}{cont_arg}\nlast line\n", d.ws, d.pre);
+    files.insert("a.txt.txtpp".into(), src.into_bytes());
+    files.insert("dep.txt.txtpp".into(), b"dep\n".to_vec());
+    files.insert("other.txt.txtpp".into(), b"other\n".to_vec());
+    let mut case = ProjectCase::simple(files);
+    case.inputs = vec!["a.txt".into()];
+    case.requested = Some(vec!["a.txt.txtpp".into()]);
+    let res = run_project(ctx, &case);
+    ctx.count("e2e_two_pass_runs", 1);
+    ctx.distinct.insert(hash_str(&format!("2pass|{head}|{cont_arg}")));
+    for (sig, msg) in judge_project(&case, &res) {
+        ctx.violation(format!("C15:e2e-two-pass:{sig}"), format!("{msg}\nsource a.txt.txtpp: include dep.txt / {head:?} / continuation {cont_arg:?}"), json!({"kind": "e2e2", "head": head, "cont": cont_arg}));
+    }
+}
+
 fn safe_for_e2e(line: &str) -> bool {
     // only lines whose directives (if any) run nothing and read nothing
     match model::detect(line) {
@@ -290,6 +314,13 @@ fn run(ctx: &mut Ctx) {
         check_e2e(ctx, &line, &next);
         done += 1;
     }
+    for head in ["// TXTPP#write w1", "  -TXTPP# note", "<!-- TXTPP#write", "-TXTPP#write TXTPP#include a.txt"] {
+        for cont in ["TXTPP#include a.txt", "TXTPP#after a.txt", "-TXTPP#include other.txt", "TXTPP#after other.txt", "TXTPP#run echo inert", "plain"] {
+            if ctx.claim(5_000_000 + hash_str(&format!("{head}{cont}")) % 1_000_000) {
+                check_e2e_two_pass(ctx, head, cont);
+            }
+        }
+    }
     ctx.sample(|| json!({"detect_line": line_of(77_777, 4, &TOK), "reference": format!("{:?}", model::detect(&line_of(77_777, 4, &TOK)))}));
     ctx.sample(|| json!({"continuation": {"ws": " ", "prefix": "// ", "type": "run", "next": " //  x \t"}, "reference": format!("{:?}", model::continues(&model::Dir{ws:" ".into(), pre:"// ".into(), name:"run".into(), args: vec![]}, " //  x \t"))}));
     ctx.exhaustive = Some(true);
@@ -300,6 +331,7 @@ fn replay(ctx: &mut Ctx, case: &Value) {
         Some("detect") => check_detect(ctx, case["line"].as_str().unwrap_or("")),
         Some("add") => check_add(ctx, case["ws"].as_str().unwrap_or(""), case["pre"].as_str().unwrap_or(""), case["ty"].as_str().unwrap_or(""), case["next"].as_str().unwrap_or("")),
         Some("e2e") => check_e2e(ctx, case["line"].as_str().unwrap_or(""), case["next"].as_str().unwrap_or("")),
+        Some("e2e2") => check_e2e_two_pass(ctx, case["head"].as_str().unwrap_or(""), case["cont"].as_str().unwrap_or("")),
         _ => eprintln!("unknown case kind"),
     }
 }
